@@ -981,6 +981,8 @@ class Interp(object):
     # ---------------------------------------------------------------- attribute access
     def getattr(self, base, name, fr):
         k = base.kind
+        if k == 'opaque' and base.tag == 'file' and name == 'name' and getattr(self.ctx, 'fileworld', None) is not None:
+            return VOpaque(self.ctx.fileworld['name'], 'filename')
         if k == 'graph':
             return self.graph_attr(base.g, name, fr)
         if k == 'module':
@@ -1558,6 +1560,17 @@ class Interp(object):
                 return m4(self, recv, argv, kwv)
             raise Undecided('method %s.%s at %s' % (k, name, self.ctx.where))
         return m(recv, argv, kwv)
+
+    def m_opaque_decode(self, recv, argv, kwv):
+        w = getattr(self.ctx, 'fileworld', None)
+        if recv.tag != 'rawline' or w is None or len(argv) != 1 or argv[0].kind not in ('opaque', 'str'):
+            raise Undecided('decode on %s' % recv.tag)
+        if argv[0].kind == 'str':
+            lits = w.setdefault('literals', {})
+            if argv[0].s not in lits:
+                lits[argv[0].s] = fresh('encoding_literal', Obj)
+            return VOpaque(w['dec'](recv.z, lits[argv[0].s]), 'decoded')
+        return VOpaque(w['dec'](recv.z, argv[0].z), 'decoded')
 
     def m_opaque_write(self, recv, argv, kwv):
         hook = getattr(self.ctx, 'file_write_hook', None)
